@@ -96,4 +96,54 @@ def readAll (need check : Bool) (n got used : Nat) : List SockEv → ReadResult
       if check ∧ got = 0 ∧ need then .needRekey got
       else readAll need check n got (used + 1) evs
 
+/-! ## compression engines across key switches (`_activate_outbound`, `_activate_inbound`, `_auth_trigger`) -/
+
+/-- negotiated compression: "none", "zlib", "zlib@openssh.com" (switched on only after authentication) -/
+inductive Comp | none | zlib | delayed
+  deriving Repr, DecidableEq, Inhabited
+
+structure CSt where
+  comp : Comp
+  authenticated : Bool := false
+  outGen : Nat := 0                   -- key sets taken into use outbound (NEWKEYS sent)
+  inGen : Nat := 0                    -- … inbound (NEWKEYS received)
+  compOutGen : Option Nat := none     -- the key generation the current compressor was created for
+  compInGen : Option Nat := none      -- … the current decompressor
+  installsOut : Nat := 0              -- calls of `set_outbound_compressor`
+  installsIn : Nat := 0               -- calls of `set_inbound_compressor`
+  deriving Repr, DecidableEq, Inhabited
+
+inductive COp | newkeysOut | newkeysIn | auth
+  deriving Repr, DecidableEq, Inhabited
+
+/-- `compress_* is not None and (compression != "zlib@openssh.com" or self.authenticated)` -/
+def CSt.switchOn (s : CSt) : Bool :=
+  match s.comp with
+  | .none => false
+  | .zlib => true
+  | .delayed => s.authenticated
+
+def cstep (s : CSt) : COp → CSt
+  | .newkeysOut =>
+    let s := { s with outGen := s.outGen + 1 }
+    if s.switchOn then { s with compOutGen := some s.outGen, installsOut := s.installsOut + 1 } else s
+  | .newkeysIn =>
+    let s := { s with inGen := s.inGen + 1 }
+    if s.switchOn then { s with compInGen := some s.inGen, installsIn := s.installsIn + 1 } else s
+  | .auth =>
+    let s := { s with authenticated := true }
+    if s.comp = .delayed then
+      { s with compOutGen := some s.outGen, compInGen := some s.inGen,
+               installsOut := s.installsOut + 1, installsIn := s.installsIn + 1 }
+    else s
+
+def crun (s : CSt) (ops : List COp) : CSt := ops.foldl cstep s
+
+/-- which generation a direction's (de)compressor must belong to -/
+def expectedCompGen (c : Comp) (authenticated : Bool) (gen : Nat) : Option Nat :=
+  match c with
+  | .none => none
+  | .zlib => if gen = 0 then none else some gen
+  | .delayed => if authenticated then some gen else none
+
 end PV.Rekey
